@@ -161,3 +161,135 @@ func ruleVartimePredicates(r *rep.Report, p *load.Program) {
 			fmt.Sprintf("%d abstract cases covering every reduced input, each with a constant result", len(cs)), strings.Join(bad, "; "))
 	}
 }
+
+// ruleCmov (E-cmov): moveConditionalBytes(out, in, flag) copies all 96 bytes when flag = 1 and changes nothing when
+// flag = 0, on every path of the configuration's variant (alignment fast paths through unsafe views, subtle fallback).
+func ruleCmov(r *rep.Report, p *load.Program) {
+	cfg := p.Cfg.Name
+	fn := ssau.Func(p, "internal/ge25519", "moveConditionalBytes")
+	if fn == nil {
+		return // configuration selects the assembly selector only
+	}
+	var bad []string
+	for _, flag := range []int64{0, 1} {
+		it := absint.NewInterp(absint.Hooks{Modular: func(*ssa.Function) bool { return true }, MaxForks: 64})
+		mk := func(name string) (absint.PtrV, []absint.Val) {
+			o := &absint.Object{Name: name, Kind: "arr", W: 8}
+			for j := 0; j < 96; j++ {
+				v := absint.Top(8, false)
+				v.Sym = absint.FreshSym(fmt.Sprintf("%s[%d]", name, j), 8)
+				o.Vals = append(o.Vals, v)
+			}
+			it.St.Objs = append(it.St.Objs, o)
+			return absint.PtrV{Obj: len(it.St.Objs) - 1, Idx: -1}, append([]absint.Val{}, o.Vals...)
+		}
+		out, out0 := mk("out")
+		in, in0 := mk("in")
+		it.Call(fn, []absint.AnyVal{out, in, absint.ConstInt(flag, 64, false)}, nil)
+		if it.Err != nil {
+			bad = append(bad, fmt.Sprintf("flag=%d: %v", flag, it.Err))
+			continue
+		}
+		want := out0
+		if flag == 1 {
+			want = in0
+		}
+		for j, v := range it.St.Objs[out.Obj].Vals {
+			if v.Sym == nil || v.Sym.Key != want[j].Sym.Key {
+				bad = append(bad, fmt.Sprintf("flag=%d: byte %d of the destination is not the %s byte", flag, j, map[int64]string{0: "original", 1: "source"}[flag]))
+				break
+			}
+		}
+		for j, v := range it.St.Objs[in.Obj].Vals {
+			if v.Sym == nil || v.Sym.Key != in0[j].Sym.Key {
+				bad = append(bad, fmt.Sprintf("flag=%d: the source is modified at byte %d", flag, j))
+				break
+			}
+		}
+	}
+	r.Check(len(bad) == 0, "E-cmov", cfg, "moveConditionalBytes(out, in, flag): flag=1 copies all 96 bytes, flag=0 changes nothing, on every alignment path", ssau.Pos(p, fn.Pos()),
+		"both flag values evaluated with value-numbered bytes; all paths joined", strings.Join(bad, "; "))
+}
+
+// ruleOutputDefined (O-output-defined): serialisers write every output byte as a function of their input only. The
+// abstract run is repeated with the destination pre-filled with 0x00 and with 0xff; any difference in the abstract
+// result means a byte is only OR-ed into or skipped, i.e. depends on what the destination held before.
+func ruleOutputDefined(r *rep.Report, p *load.Program) {
+	cfg := p.Cfg.Name
+	weights, widths, w := fieldLayout(p)
+	bpl, n, mw := modmLayout(p)
+	type job struct {
+		pkg, name string
+		limbs     int
+		lw        int
+		bits      func(i int) int
+	}
+	jobs := []job{
+		{"internal/curve25519", "Contract", len(weights), w, func(i int) int { return widths[i] }},
+		{"internal/modm", "Contract", n, mw, func(i int) int {
+			if (i+1)*bpl > 256 {
+				return 256 - i*bpl
+			}
+			return bpl
+		}},
+	}
+	for _, j := range jobs {
+		fn := ssau.Func(p, j.pkg, j.name)
+		if fn == nil {
+			continue
+		}
+		var res [2][]absint.Val
+		var errs []string
+		for k, fill := range []int64{0x00, 0xff} {
+			it := absint.NewInterp(absint.Hooks{Modular: func(*ssa.Function) bool { return true }, MaxForks: 64})
+			o := &absint.Object{Name: "out", Kind: "arr", W: 8}
+			for b := 0; b < 32; b++ {
+				o.Vals = append(o.Vals, absint.ConstInt(fill, 8, false))
+			}
+			it.St.Objs = append(it.St.Objs, o)
+			oid := len(it.St.Objs) - 1
+			in := &absint.Object{Name: "in", Kind: "arr", W: j.lw}
+			for i := 0; i < j.limbs; i++ {
+				v := absint.Range(new(big.Int), new(big.Int).Sub(new(big.Int).Lsh(big.NewInt(1), uint(j.bits(i))), big.NewInt(1)), j.lw, false)
+				v.Sym = absint.FreshSym(fmt.Sprintf("in[%d]", i), j.lw)
+				in.Vals = append(in.Vals, v)
+			}
+			it.St.Objs = append(it.St.Objs, in)
+			iid := len(it.St.Objs) - 1
+			it.Call(fn, []absint.AnyVal{absint.SliceV{Obj: oid, Off: 0, Len: 32}, absint.PtrV{Obj: iid, Idx: -1}}, nil)
+			if it.Err != nil {
+				errs = append(errs, it.Err.Error())
+			}
+			res[k] = append([]absint.Val{}, it.St.Objs[oid].Vals...)
+		}
+		var bad []string
+		bad = append(bad, errs...)
+		if len(errs) == 0 {
+			for b := 0; b < 32; b++ {
+				x, y := res[0][b], res[1][b]
+				same := x.Lo.Cmp(y.Lo) == 0 && x.Hi.Cmp(y.Hi) == 0
+				for i := 0; i < 8 && same; i++ {
+					bx, by := absint.Bit(-1), absint.Bit(-1)
+					if x.Bits != nil {
+						bx = x.Bits[i]
+					}
+					if y.Bits != nil {
+						by = y.Bits[i]
+					}
+					// provenance bits are per-run identities; compare only known constants
+					if (bx == 0 || bx == 1 || by == 0 || by == 1) && bx != by {
+						same = false
+					}
+				}
+				if !same {
+					bad = append(bad, fmt.Sprintf("output byte %d depends on the previous content of the destination (pre-filled 0x00: %v, 0xff: %v)", b, x, y))
+					if len(bad) >= 3 {
+						break
+					}
+				}
+			}
+		}
+		r.Check(len(bad) == 0, "O-output-defined", cfg, j.pkg[strings.LastIndex(j.pkg, "/")+1:]+".Contract writes all 32 output bytes as a function of its input only", ssau.Pos(p, fn.Pos()),
+			"two abstract runs with the destination pre-filled 0x00 / 0xff give the same 32 abstract bytes", strings.Join(bad, "; "))
+	}
+}
